@@ -18,8 +18,12 @@ def build(rng, tier):
         mods.append((pid, eng.rs_module(pid, p)))
         for j in range(8 if tier == "quick" else 40):
             inp = gen.nodup_input(rng.fork(f"{pid}i{j}"), p)
+            afj = gen.agg_first_joins(p)
+            if afj and j % 2 == 1:
+                a, b, sw = afj[j // 2 % len(afj)]
+                inp = gen.skew_join_input(rng.fork(f"{pid}s{j}"), inp, a, b, sw)
             inst = f"{pid}_{j}"
-            cases.append(engcheck.Case(pid, inst, engcheck.std_history(inst, pid, inp), {"inp": inp, "kind": "agg"}))
+            cases.append(engcheck.Case(pid, inst, engcheck.std_history(inst, pid, inp), {"inp": inp, "kind": "agg-first-skewed" if afj and j % 2 == 1 else "agg"}))
             if j % 4 == 3:
                 # known-finding class: duplicate rows in the input (F15); a second run() (F2, fixed by 8b2e261) must pass
                 r2 = rng.fork(f"{pid}d{j}")
@@ -65,6 +69,7 @@ def check(tier, replay=None):
     return engcheck.run_property("C04", tier, modules=["AscentVerif.Props.C04"], theorems=THEOREMS, trusted=TRUSTED, group="c04",
                                  build=build, oracle=oracle, known=known, what="compiled stratified programs with aggregation / negation",
                                  rule="generated relational cores plus aggregation rules (count, sum, min, max, not) at stratum depth 1-3, aggregated relation's "
-                                      "columns bound by key variables / constants, wildcarded or aggregated in every mix; duplicate-free inputs; compared with "
+                                      "columns bound by key variables / constants, wildcarded or aggregated in every mix; aggregation as the FIRST body item followed by two joined clauses the second of which "
+                                      "repeats the aggregate's result (size-skewed inputs: both len_estimate branches); duplicate-free inputs; compared with "
                                       "the model and the stratified naive oracle; plus lattice programs (shortest-path / data-flow shapes) with aggregates over a lattice "
                                       "through a non-unique index")
